@@ -361,6 +361,10 @@ func init() {
 		msg := opaqueOf(args[0]).Data.(*diamMsg)
 		return m.newOpaquePtr("diam.Message", &diamMsg{cmd: msg.cmd, request: false, reqOf: msg})
 	}
+	I["(*"+diamPkg+".Message).NewAVP"] = func(m *Machine, fr *frame, args []Value) Value {
+		m.noteAssumption("stub diam.Message.NewAVP: single AVPs added to a message by hand are not modelled (only the struct carried by Marshal is)")
+		return Tuple{(*Value)(nil), Iface{}}
+	}
 	I["(*"+diamPkg+".Message).String"] = func(m *Machine, fr *frame, args []Value) Value { return "<diam.Message>" }
 	I["(*"+diamPkg+".Message).WriteTo"] = func(m *Machine, fr *frame, args []Value) Value {
 		m.noteAssumption("stub diam.Message.WriteTo: hands the message to the peer's real handler closure synchronously; answers are queued FIFO on the subscriber channel")
@@ -373,7 +377,12 @@ func init() {
 		if msg.request {
 			h, ok := m.env["reg:diam.server."+fmt.Sprint(msg.cmd)]
 			if !ok {
-				m.unsupported("no Diameter server registered for command %d (vx.Register)", msg.cmd)
+				// a command neither server of the repository handles (the base
+				// protocol's state machine does not answer it either): the
+				// request is delivered and stays unanswered
+				m.noteAssumption(fmt.Sprintf("a Diameter request with command %d, which neither the rating nor the account server handles, is delivered and never answered", msg.cmd))
+				m.events = append(m.events, fmt.Sprintf("-> peer cmd %d: unanswered", msg.cmd))
+				return Tuple{m.i64(1), Iface{}}
 			}
 			if m.cfg("diam.requestMayBeLost") && m.Choose(2) == 1 {
 				m.events = append(m.events, "request lost")
